@@ -3,6 +3,7 @@ package sess
 import (
 	"encoding/binary"
 	"fmt"
+	"reflect"
 	"runtime"
 	"time"
 
@@ -334,6 +335,7 @@ func runCodec(s *Session) string {
 		fresh func() any
 		dec   func(o any, b []byte) error
 		again func(o any) []byte
+		orig  any // the value that was encoded
 	}
 	var c codec
 	decP := func(o any, b []byte) error {
@@ -355,7 +357,7 @@ func runCodec(s *Session) string {
 		o := mk()
 		fillObject(t, o, 0, 1)
 		fixup(o)
-		c = codec{fmt.Sprintf("rhp/v%d %T", v, o), encP(o), func() any { return mk() }, decP, func(o any) []byte { fixup(o); return encP(o.(pobj)) }}
+		c = codec{fmt.Sprintf("rhp/v%d %T", v, o), encP(o), func() any { return mk() }, decP, func(o any) []byte { fixup(o); return encP(o.(pobj)) }, o}
 	case 4:
 		r := rpcs4[t.Choose(len(rpcs4))]
 		mk := r.resp
@@ -368,7 +370,7 @@ func runCodec(s *Session) string {
 			d := types.NewBufDecoder(b)
 			rhp4.VerifDecode(d, o.(obj4))
 			return d.Err()
-		}, func(o any) []byte { return enc4(o.(obj4)) }}
+		}, func(o any) []byte { return enc4(o.(obj4)) }, o}
 	default:
 		exs := buildGateway(t)
 		ex := exs[t.Choose(len(exs))]
@@ -377,13 +379,13 @@ func runCodec(s *Session) string {
 				d := types.NewBufDecoder(b)
 				gateway.VerifDecodeRequest(d, o.(gateway.Object))
 				return d.Err()
-			}, func(o any) []byte { return gwReqBytes(o.(gateway.Object)) }}
+			}, func(o any) []byte { return gwReqBytes(o.(gateway.Object)) }, nil}
 		} else {
 			c = codec{fmt.Sprintf("gateway %T response", ex.resp), gwRespBytes(ex.resp), func() any { return freshLike(ex.resp) }, func(o any, b []byte) error {
 				d := types.NewBufDecoder(b)
 				gateway.VerifDecodeResponse(d, o.(gateway.Object))
 				return d.Err()
-			}, func(o any) []byte { return gwRespBytes(o.(gateway.Object)) }}
+			}, func(o any) []byte { return gwRespBytes(o.(gateway.Object)) }, nil}
 		}
 	}
 	e.inc("codec.objects")
@@ -400,6 +402,14 @@ func runCodec(s *Session) string {
 	if re := c.again(got); string(re) != string(c.enc) {
 		e.violate("C11", "rpc-roundtrip-differs", fmt.Sprintf("%s: re-encoding the decoded value gives different bytes (%d vs %d)", c.name, len(re), len(c.enc)))
 		return "codec"
+	}
+	if c.orig != nil {
+		// the bytes agree with themselves; the value they stand for must be the one that was encoded
+		if where := valueDiff(reflect.ValueOf(c.orig).Elem(), reflect.ValueOf(got).Elem(), c.name); where != "" {
+			e.violate("C11", "rpc-roundtrip-value", fmt.Sprintf("%s: decode(encode(x)) is another value than x: %s differs (re-encoding gives the same bytes, so the encoder leaves it out)", c.name, where))
+			return "codec"
+		}
+		e.inc("codec.values-compared")
 	}
 	if len(c.enc) == 0 {
 		return "codec"
